@@ -128,7 +128,7 @@ class Leaf:
 class Node:
     is_leaf = False
 
-    def __init__(self, name, kids, akind='', ct=None, N=None, rfun=None, npf=None, cxx=None, extra=''):
+    def __init__(self, name, kids, akind='', ct=None, N=None, rfun=None, npf=None, cxx=None, extra='', clv=None):
         self.name = name; self.kids = kids; self.akind = akind
         self.ct = ct            # compile-time value(s) (also the maxima for 'cl')
         self.N = N              # static length of an rt argument
@@ -136,18 +136,27 @@ class Node:
         self.npf = npf          # (list of kid arrays, run-time argument) -> ndarray
         self.cxx = cxx          # (list of kid expressions, run-time argument expression) -> C++ expression
         self.extra = extra      # extra token text (keepdims ...)
+        self.clv = clv          # run-time values of a clipped argument
 
     def has_rarg(self):
         return self.rfun is not None
 
     def token(self):
+        """RPN token read by lean/NmVerif/Driver/C11.lean: name.argkind.fields (lists comma separated)"""
         t = self.name
-        if self.akind:
-            t += '.' + self.akind
-            if self.akind in ('ct', 'cl') and self.ct is not None:
-                t += '.' + (fmt(self.ct) if isinstance(self.ct, (tuple, list)) else str(self.ct))
-            if self.akind in ('rt', 'cl') and self.N is not None:
-                t += '.' + str(self.N)
+        k = self.akind
+        if k == 'ct':
+            t += '.ct.' + (fmt(self.ct) if isinstance(self.ct, (tuple, list)) else str(self.ct))
+        elif k in ('cts',):
+            t += '.cts.%d' % self.ct
+        elif k == 'ctt':
+            t += '.ctt.' + fmt(self.ct)
+        elif k == 'cl':
+            t += '.cl.%s.%s' % (fmt(self.ct), fmt(self.clv))
+        elif k == 'rt':
+            t += '.rt.%d' % self.N
+        elif k:
+            t += '.' + k
         if self.extra:
             t += '.' + self.extra
         return t
@@ -210,8 +219,7 @@ def op_reshape(k, v):
         mx = [x + slack for x in t]
         out.append(Node('reshape', [k], 'cl', ct=tuple(mx), N=len(t),
                         rfun=None, npf=lambda a, _, t=t: np.reshape(a[0], t),
-                        cxx=lambda e, _, t=t, mx=mx: 'view::reshape(%s, %s)' % (e[0], cl_tuple(t, mx)),
-                        extra='v' + fmt(t).replace(',', '_')))
+                        cxx=lambda e, _, t=t, mx=mx: 'view::reshape(%s, %s)' % (e[0], cl_tuple(t, mx)), clv=tuple(t)))
     out.append(Node('reshape', [k], 'rt', N=len(t), rfun=lambda s, L=len(t): (lambda x: x if len(x) == L else None)(_reshape_target(s[0])),
                     npf=lambda a, x: np.reshape(a[0], x), cxx=lambda e, x: 'view::reshape(%s, %s)' % (e[0], x)))
     out.append(Node('reshape', [k], 'rt', N=2, rfun=lambda s: [-1, s[0][-1]],
@@ -236,7 +244,7 @@ def op_broadcast_to(k, v):
                     cxx=lambda e, _, t=t: 'view::broadcast_to(%s, %s)' % (e[0], ct_tuple(t))))
     mx = [x + 1 for x in t]
     out.append(Node('broadcast_to', [k], 'cl', ct=tuple(mx), N=len(t), npf=lambda a, _, t=t: np.broadcast_to(a[0], t),
-                    cxx=lambda e, _, t=t, mx=mx: 'view::broadcast_to(%s, %s)' % (e[0], cl_tuple(t, mx)), extra='v' + fmt(t).replace(',', '_')))
+                    cxx=lambda e, _, t=t, mx=mx: 'view::broadcast_to(%s, %s)' % (e[0], cl_tuple(t, mx)), clv=tuple(t)))
     out.append(Node('broadcast_to', [k], 'rt', N=len(t), rfun=lambda s, L=len(t): (lambda x: x if len(x) == L else None)(_bcast_target(s[0])),
                     npf=lambda a, x: np.broadcast_to(a[0], x), cxx=lambda e, x: 'view::broadcast_to(%s, %s)' % (e[0], x)))
     out.append(Node('broadcast_to', [k], 'rtv', rfun=lambda s: _bcast_target(s[0]),
@@ -259,10 +267,10 @@ def op_tile(k, v):
 
 def op_expand_dims(k, v):
     out = []
-    out.append(Node('expand_dims', [k], 'ct', ct=0, npf=lambda a, _: np.expand_dims(a[0], 0),
+    out.append(Node('expand_dims', [k], 'cts', ct=0, npf=lambda a, _: np.expand_dims(a[0], 0),
                     cxx=lambda e, _: 'view::expand_dims(%s, 0_ct)' % e[0]))
     ax = (0, len(v) + 1)
-    out.append(Node('expand_dims', [k], 'ct', ct=ax, npf=lambda a, _, ax=ax: np.expand_dims(a[0], ax),
+    out.append(Node('expand_dims', [k], 'ctt', ct=ax, npf=lambda a, _, ax=ax: np.expand_dims(a[0], ax),
                     cxx=lambda e, _, ax=ax: 'view::expand_dims(%s, %s)' % (e[0], ct_tuple(ax))))
     out.append(Node('expand_dims', [k], 'rts', rfun=lambda s: [len(s[0])],
                     npf=lambda a, x: np.expand_dims(a[0], x[0]), cxx=lambda e, x: 'view::expand_dims(%s, %s)' % (e[0], x)))
@@ -277,13 +285,13 @@ def op_sum(k, v):
     r = len(v); out = []
     for kd in (0, 1):
         kds = 'nm::True' if kd else 'nm::False'
-        out.append(Node('sum', [k], 'ct', ct=r - 1, extra='kd%d' % kd, npf=lambda a, _, ax=r - 1, kd=kd: np.sum(a[0], axis=ax, keepdims=bool(kd)),
+        out.append(Node('sum', [k], 'cts', ct=r - 1, extra='kd%d' % kd, npf=lambda a, _, ax=r - 1, kd=kd: np.sum(a[0], axis=ax, keepdims=bool(kd)),
                         cxx=lambda e, _, ax=r - 1, kds=kds: 'view::sum(%s, %d_ct, nm::None, nm::None, %s)' % (e[0], ax, kds)))
         out.append(Node('sum', [k], 'rts', extra='kd%d' % kd, rfun=lambda s: [0], npf=lambda a, x, kd=kd: np.sum(a[0], axis=x[0], keepdims=bool(kd)),
                         cxx=lambda e, x, kds=kds: 'view::sum(%s, %s, nm::None, nm::None, %s)' % (e[0], x, kds)))
     if r >= 2:
         ax = (0, r - 1)
-        out.append(Node('sum', [k], 'ct', ct=ax, extra='kd0', npf=lambda a, _, ax=ax: np.sum(a[0], axis=ax),
+        out.append(Node('sum', [k], 'ctt', ct=ax, extra='kd0', npf=lambda a, _, ax=ax: np.sum(a[0], axis=ax),
                         cxx=lambda e, _, ax=ax: 'view::sum(%s, %s, nm::None, nm::None, nm::False)' % (e[0], ct_tuple(ax))))
         out.append(Node('sum', [k], 'rt', N=2, extra='kd1', rfun=lambda s: [0, len(s[0]) - 1] if len(s[0]) >= 2 else None,
                         npf=lambda a, x: np.sum(a[0], axis=tuple(x), keepdims=True),
@@ -301,7 +309,7 @@ def op_add(k1, k2, v1, v2):
 
 def op_concatenate(k1, k2, v1, v2):
     out = []
-    out.append(Node('concatenate', [k1, k2], 'ct', ct=0, npf=lambda a, _: np.concatenate([a[0], a[1]], 0),
+    out.append(Node('concatenate', [k1, k2], 'cts', ct=0, npf=lambda a, _: np.concatenate([a[0], a[1]], 0),
                     cxx=lambda e, _: 'view::concatenate(%s, %s, 0_ct)' % (e[0], e[1])))
     out.append(Node('concatenate', [k1, k2], 'rts', rfun=lambda s: [0], npf=lambda a, x: np.concatenate([a[0], a[1]], x[0]),
                     cxx=lambda e, x: 'view::concatenate(%s, %s, %s)' % (e[0], e[1], x)))
